@@ -7,15 +7,15 @@ import (
 
 // Result of exploring one scenario.
 type Result struct {
-	Executions   int
-	BoundDone    int // highest preemption bound fully explored (-1 if none)
-	Capped       bool
-	MaxPoints    int
-	States       map[uint64]struct{}
-	Transitions  int
-	Failure      *Failure
-	Outcomes     map[string]int
-	PerBound     []int // cumulative executions after each completed bound
+	Executions  int
+	BoundDone   int // highest preemption bound fully explored (-1 if none)
+	Capped      bool
+	MaxPoints   int
+	States      map[uint64]struct{}
+	Transitions int
+	Failure     *Failure
+	Outcomes    map[string]int
+	PerBound    []int // cumulative executions after each completed bound
 }
 
 type Failure struct {
@@ -26,10 +26,10 @@ type Failure struct {
 
 // ExploreCfg controls the DFS.
 type ExploreCfg struct {
-	Bound     int           // maximum number of preemptions
-	MaxExec   int           // cap on executions (0 = none)
-	Deadline  time.Time     // wall-clock cap (zero = none)
-	Run       Config
+	Bound    int       // maximum number of preemptions
+	MaxExec  int       // cap on executions (0 = none)
+	Deadline time.Time // wall-clock cap (zero = none)
+	Run      Config
 	// Check is the oracle: returns "" if the execution is fine; outcome is a short
 	// class string counted in Result.Outcomes.
 	Check func(ex *Exec) (violation string, outcome string)
